@@ -139,9 +139,14 @@ pub fn accept(out: &str, x: f64, d: u8, remove: bool, rounding: bool, dec: &str,
     let (neg, int_digits, frac) = parse_printed(out, dec, thou)?;
     let v = Dec::parse(&int_digits, frac.as_deref().unwrap_or(""));
     let exact = Dec::of_f64(x);
-    // value: within half a unit of the last configured digit (ties: both neighbours accepted)
+    // value: within half a unit of the last configured digit (ties: both neighbours accepted).
+    // With rounding disabled the library prints the shortest digit string that identifies the
+    // double; that string is accepted when it reads back as exactly the value.
     if half_unit_cmp(&v, &exact, d as usize) == Ordering::Greater {
-        return Err(format!("printed value is more than half a unit of digit {} away from the value", d));
+        let reads_back = !rounding && format!("{}.{}", int_digits, frac.as_deref().unwrap_or("0")).parse::<f64>().map(|p| p == x.abs()).unwrap_or(false);
+        if !reads_back {
+            return Err(format!("printed value is more than half a unit of digit {} away from the value", d));
+        }
     }
     if rounding {
         match &frac {
@@ -225,7 +230,7 @@ impl Prop for C07 {
             f.push(Family::new(
                 "money",
                 Mode::Full,
-                &format!("[MONEY:x;code] for currencies {:?} (every combination of digit count and symbol placement among the rated currencies) x money zero-fraction removal on/off x rounding on/off x separators x value grid of the currency's digit count", picks),
+                &format!("money literals 'x code' (exact: shortest round-trip digits) for currencies {:?} (every combination of digit count and symbol placement among the rated currencies) x money zero-fraction removal on/off x rounding on/off x separators x value grid of the currency's digit count", picks),
                 move |ch| {
                     let code = ch.pick(&picks).clone();
                     let d = spec().currencies[&code].digits;
@@ -269,7 +274,10 @@ impl Prop for C07 {
             }
             Kind::Money(code) => {
                 cfg.money = Some((c.remove_zero_fract, c.rounding));
-                format!("[MONEY:{};{}]", fmt_x(c.x), code)
+                // the [MONEY:x;code] atom cannot be used from a line: its ';' is rewritten by the
+                // global alias table before the atom is read.  A money literal is exact as well:
+                // Display of an f64 is its shortest round-trip form without exponent.
+                format!("{} {}", format!("{}", c.x).replace('.', &c.dec), code)
             }
             Kind::Unit(word, _, _) => format!("[NUMBER:{}] {}", fmt_x(c.x), word),
         };
